@@ -7,6 +7,7 @@ import (
 	"go/types"
 	"math/big"
 	"strconv"
+	"strings"
 )
 
 type SpecCtx struct {
@@ -17,6 +18,7 @@ type SpecCtx struct {
 	pkg    *Pkg
 	assume bool
 	reveal map[string]bool
+	locals *Frame
 }
 
 func (c *SpecCtx) fail(format string, a ...interface{}) {
@@ -367,6 +369,16 @@ func (c *SpecCtx) ident(name string) Value {
 	case "nil":
 		return PtrV{}
 	}
+	if c.locals != nil {
+		if o, ok := c.locals.byName[name]; ok {
+			t := c.locals.types[name]
+			switch t.Underlying().(type) {
+			case *types.Array, *types.Struct:
+				return PtrV{Obj: o, Typ: t}
+			}
+			return c.cell(o, 0)
+		}
+	}
 	if t, ok := c.ex.specs.Consts[name]; ok {
 		return t
 	}
@@ -564,6 +576,15 @@ func (c *SpecCtx) call(e *ast.CallExpr) Value {
 			parts = append(parts, cc.term(e.Args[3]))
 		}
 		return And(parts...)
+	case "evalr":
+		// evalr(place, a, b) = sum_{a<=j<b} place[j] * W^(j-a)
+		p := c.place(e.Args[0])
+		a, b := int(c.term(e.Args[1]).val.Int64()), int(c.term(e.Args[2]).val.Int64())
+		parts := []*Term{IntI(0)}
+		for j := a; j < b; j++ {
+			parts = append(parts, Mul(IntC(pow2(64*(j-a))), c.cellTerm(p.Obj, p.Off+j)))
+		}
+		return Add(parts...)
 	case "eval":
 		return c.evalLimbs(c.limbs(c.place(e.Args[0])))
 	case "fv":
@@ -601,7 +622,7 @@ func (c *SpecCtx) call(e *ast.CallExpr) Value {
 		if x.IsConst() {
 			return FPow(b, x.val)
 		}
-		return App("fpow", b.sort, b, x)
+		return App("fpow_"+b.sort.Name, b.sort, b, x)
 	case "os2ip":
 		return c.os2ip(c.bytesOf(c.eval(e.Args[0])))
 	case "pow2":
@@ -674,7 +695,7 @@ func (c *SpecCtx) call(e *ast.CallExpr) Value {
 		if len(d.Params) != len(e.Args) {
 			c.fail("define %s: arity", name)
 		}
-		cc := &SpecCtx{ex: ex, vars: map[string]Value{}, pkg: c.pkg, assume: c.assume, reveal: c.reveal, old: c.old}
+		cc := &SpecCtx{ex: ex, vars: map[string]Value{}, pkg: c.pkg, assume: c.assume, reveal: c.reveal, old: c.old, inOld: c.inOld}
 		for i, p := range d.Params {
 			cc.vars[p] = c.eval(e.Args[i])
 		}
@@ -719,3 +740,17 @@ func (ex *Exec) readSymSpec(sa *SymArr, idx *Term) *Term {
 }
 
 var _ = big.NewInt
+
+// tryTerm evaluates a hint; hints that mention a nil parameter in this case are skipped.
+func (c *SpecCtx) tryTerm(e ast.Expr) (t *Term) {
+	defer func() {
+		if r := recover(); r != nil {
+			if ee, ok := r.(engineError); ok && strings.Contains(ee.msg, "nil p") {
+				t = BoolC(true)
+				return
+			}
+			panic(r)
+		}
+	}()
+	return c.term(e)
+}
